@@ -225,11 +225,12 @@ type sysEnv struct {
 	ctrl     *ncdisruption.Controller
 	hashCtrl *nphash.Controller // long-lived: whatever it keeps in memory survives pool edits, deletion and re-creation
 	// API faults (all switchable): status patch of NodeClaims, patch of NodeClaims / NodePools, list of NodeClaims
-	failClaimStatusPatch error
-	failClaimStatusOnce  bool
-	failClaimPatch       error
-	failPoolPatch        error
-	failClaimList        error
+	failClaimStatusPatch    error
+	failClaimStatusOnce     bool
+	failClaimPatch          error
+	failClaimLabelPatchOnce error
+	failPoolPatch           error
+	failClaimList           error
 }
 
 func mustQty(s string) resource.Quantity { return resource.MustParse(s) }
@@ -253,6 +254,14 @@ func newSysEnv() *sysEnv {
 		Patch: func(ctx context.Context, cl client.WithWatch, obj client.Object, patch client.Patch, opts ...client.PatchOption) error {
 			if _, ok := obj.(*v1.NodeClaim); ok && e.failClaimPatch != nil {
 				return e.failClaimPatch
+			}
+			if _, ok := obj.(*v1.NodeClaim); ok && e.failClaimLabelPatchOnce != nil {
+				// the metadata write that carries the labels resolved at launch (not the finalizer write before it)
+				if data, err := patch.Data(obj); err == nil && strings.Contains(string(data), "\"labels\"") {
+					err := e.failClaimLabelPatchOnce
+					e.failClaimLabelPatchOnce = nil
+					return err
+				}
 			}
 			if _, ok := obj.(*v1.NodePool); ok && e.failPoolPatch != nil {
 				return e.failPoolPatch
@@ -822,7 +831,8 @@ func runSys(c *kit.Ctx, r *kit.Rand, plan sysPlan) {
 	}
 	launchFault := "none"
 	if r.Chance(1, 4) {
-		launchFault = kit.Pick(r, []string{"create-error", "generic-error", "insufficient-capacity", "nodeclass-not-ready", "status-patch-fails-once"})
+		launchFault = kit.Pick(r, []string{"create-error", "generic-error", "insufficient-capacity", "nodeclass-not-ready", "status-patch-fails-once",
+			"metadata-patch-fails-once", "metadata-patch-fails-once"})
 	}
 	c.Count("launch-fault:" + launchFault)
 	finish := func(final map[string]string) {
@@ -846,11 +856,14 @@ func runSys(c *kit.Ctx, r *kit.Rand, plan sysPlan) {
 		e.cp.createErrs = []error{cloudprovider.NewInsufficientCapacityError(fmt.Errorf("injected"))}
 	case "nodeclass-not-ready":
 		e.cp.createErrs = []error{cloudprovider.NewNodeClassNotReadyError(fmt.Errorf("injected"))}
+	case "metadata-patch-fails-once":
+		e.failClaimLabelPatchOnce = fmt.Errorf("injected: metadata patch rejected")
 	case "status-patch-fails-once":
 		e.failClaimStatusPatch, e.failClaimStatusOnce = fmt.Errorf("injected: status patch failed"), true
 	}
 	reconcileLaunch()
 	e.failClaimStatusPatch, e.failClaimStatusOnce = nil, false
+	e.failClaimLabelPatchOnce = nil
 	if launchFault != "none" {
 		// the claim is not launched (or being deleted): the drift controller must not report it
 		step("launch-failed:"+launchFault, time.Minute, r.Bool(), true)
@@ -865,6 +878,9 @@ func runSys(c *kit.Ctx, r *kit.Rand, plan sysPlan) {
 			return
 		}
 		reconcileLaunch() // second attempt: Create succeeds, or the cached answer of the first attempt is used
+		for i, n := 0, r.Intn(3); i < n; i++ {
+			reconcileLaunch()
+		}
 	}
 	nc = &v1.NodeClaim{ObjectMeta: metav1.ObjectMeta{Name: "claim"}}
 	e.get(nc)
